@@ -333,19 +333,37 @@ class Aggregate(list):
         """
         cls = self.__class__
         root = ET.Element(cls.__name__)
-        do_list = True  # HACK
+        listtypes = (Types.ListAggregate, Types.ListElement)
+
+        # Contained sequence items get written where their list-type attribute
+        # is declared.  Adjacent list-type attributes (``Unsupported``, which
+        # never gets written, doesn't separate them) form a run whose members
+        # are written together in sequence order, at the start of the run.
+        runs: list = []
+        in_run = False
+        for type_ in self.spec.values():
+            if isinstance(type_, listtypes):
+                if not in_run:
+                    runs.append([])
+                    in_run = True
+                runs[-1].append(type_)
+            elif not isinstance(type_, Types.Unsupported):
+                in_run = False
 
         for attr, type_ in self.spec.items():
-            if isinstance(type_, (Types.ListAggregate, Types.ListElement)):
-                # HACK - the assumption here is that all list members
-                # occur immediately adjacent to each other in the class
-                # definition.  So when you encounter the first one, process
-                # all Aggregate contained sequence items, then don't do them
-                # again for subsequent list members.
-                if do_list:
+            if isinstance(type_, listtypes):
+                for run in runs:
+                    if run[0] is not type_:
+                        continue
+                    # A class with a single run (the usual case) writes all its
+                    # members there; otherwise each run takes the members of the
+                    # types it declares.
+                    membertypes = tuple(
+                        t.__type__ for t in run if isinstance(t, Types.ListAggregate)
+                    )
                     for member in self:
-                        self._listAppend(root, member)
-                    do_list = False
+                        if len(runs) == 1 or isinstance(member, membertypes):
+                            self._listAppend(root, member)
             else:
                 value = getattr(self, attr)
                 if value is None:
